@@ -619,7 +619,9 @@ func checkBindUniqueness(c *Check) {
 			}
 			switch {
 			case bindV != nil:
-				absent := edgesWhere(fn, cBool(p.vMember(set, vIs(bindV))), false)
+				// the key of the lookup is the stored value itself, or another read of the same local field
+				bv := bindV
+				absent := edgesWhere(fn, cBool(p.vMember(set, func(x ssa.Value) bool { return sameValue(x, bv) })), false)
 				ok, path := guardedBy(fn, absent, isInstr(al))
 				if ok && len(absent) > 0 {
 					c.OK(key, pos, "allocation reachable only on the `bind not among ancestor binds` edge", numInstrs(fn))
